@@ -9,9 +9,9 @@ extern "C" {
 // which over-approximates std::map/std::set (sound for safety proofs).
 extern unsigned long model_g_map, model_g_set;
 // index chosen by the most recent lookup (== size: not found); lets a contract name the entry that was used
-extern unsigned long model_last_map, model_last_set;
+extern unsigned long model_last_map, model_last_set, model_last2_map, model_last2_set, model_last3_map, model_last3_set;
 // one-shot witness for the next lookup ((size_t)-1: none, the index is chosen nondeterministically)
-extern unsigned long model_pick_map, model_pick_set;
+extern unsigned long model_pick_map, model_pick_set, model_pick2_map, model_pick2_set, model_pick3_map, model_pick3_set;
 unsigned long nondet_model_ulong();
 }
 #endif
